@@ -16,6 +16,11 @@ def generate(rng, tier, index):
     N = rng.choice([0, 1, 2, 3, W, W + 1, 2 * W, 2 * W + 1, rng.randrange(0, 41), rng.randrange(0, 41), rng.choice([100, 257, 1000, 1023])])
     if rng.random() < 0.01:
         N = rng.choice([32767, 32768, 32769, 40000, 65535, 65536, 65537, 70001])  # around the limits of 16-bit index types
+    if rng.random() < 0.01:
+        import sys
+
+        return {"huge": True, "N": rng.choice([2**53 + 1, 10**17 + 7, sys.maxsize, 2**62 + 3]), "W": W, "mode": rng.choice(MODES), "kind": "sequential", "base_seed": None,
+                "torch_seed": 1, "distributed": True, "init_epoch": [0] * W, "ops": []}
     sc = {
         "N": N,
         "W": W,
@@ -59,7 +64,50 @@ def make(sc, init_epoch, seed):
     return EpochSequentialSampler(ds, init_epoch, sc["mode"])
 
 
+def execute_huge(sc):
+    """Sizes far beyond what can be enumerated (2**53 and up): len() against exact integer
+    arithmetic and the first indices of the sequential sampler; nothing is drained."""
+    import itertools
+
+    res = RunResult()
+    sd = SimDist()
+    N, W, mode = sc["N"], sc["W"], sc["mode"]
+    with sd.patched():
+        for r in range(W):
+            with sd.node(r, W):
+                try:
+                    s = make(dict(sc, kind="sequential"), 0, None)
+                except ValueError:
+                    if mode == "raise" and N % W:
+                        res.bump("probe.raise_on_uneven")
+                        res.nontrivial = True
+                        return res
+                    raise
+                eff = N - N % W if mode == "drop" else N
+                want = len(range(r, eff, W)) if mode != "ignore" else N
+                try:
+                    got = len(s)
+                except Exception as e:  # noqa
+                    res.violate("len.raised", f"len() of a sampler over {N} items raised {type(e).__name__}: {e}", mode=mode)
+                    return res
+                if got != want:
+                    res.violate("len.mismatch", f"rank {r}/{W} over N={N} ({mode}): len() = {got}, the sampler yields {want} indices", mode=mode)
+                    return res
+                first = [int(x) for x in itertools.islice(iter(s), 3)]
+                exp = list(itertools.islice(range(r, eff, W) if mode != "ignore" else range(N), 3))
+                if first != exp:
+                    res.violate("split.sequential-stride", f"rank {r}/{W} over N={N}: first indices {first}, expected {exp}", mode=mode)
+                    return res
+                res.steps += 1
+    res.log.add("huge", N, W, mode)
+    res.nontrivial = True
+    res.bump("probe.huge_size")
+    return res
+
+
 def execute(sc):
+    if sc.get("huge"):
+        return execute_huge(sc)
     res = RunResult()
     sd = SimDist()
     N, W, mode = sc["N"], sc["W"], sc["mode"]
